@@ -104,10 +104,10 @@ type stepCtx struct {
 	clock   time.Time
 	faulted bool
 	// a file was changed by somebody else while the process ran (pause)
-	midEdit       *EditFault
-	midEditBytes  string // content of the target right after the edit ("\x00absent" if removed)
-	readsAtEdit   int
-	writesAtEdit  int
+	midEdit      *EditFault
+	midEditBytes string // content of the target right after the edit ("\x00absent" if removed)
+	readsAtEdit  int
+	writesAtEdit int
 }
 
 func (c *stepCtx) report(prop, rule, site, detail string) {
@@ -136,6 +136,12 @@ func (histEngine) execute(sc *Scenario) *Outcome {
 	sort.Strings(hw.names)
 	for _, n := range hw.names {
 		_ = os.WriteFile(hw.path(n), []byte(w.file(n)), 0o644)
+	}
+	// relative file arguments (bit 5 of ArgForm) are resolved against the working directory: the scratch root
+	if wd, err := os.Getwd(); err == nil {
+		if os.Chdir(root) == nil {
+			defer os.Chdir(wd)
+		}
 	}
 	cfg := filepath.Join(root, "cfg")
 	_ = os.MkdirAll(cfg, 0o755)
@@ -185,8 +191,8 @@ func (histEngine) execute(sc *Scenario) *Outcome {
 			cpus = w.Cpus
 		}
 		before := hw.snapshot()
-		spec := &ProcSpec{Argv: resolveArgv(op.Argv, root), Tape: op.Tape, MapTape: op.MapTape, MapOrder: op.MapOrder, Plan: op.Plan,
-			Base: clock, ZoneMin: w.ZoneMin, ZoneName: w.ZoneName, Root: root, Stdin: op.Stdin, Cpus: cpus, Env: env, Steps: op.Steps, LongRun: op.Kind == "pause"}
+		spec := &ProcSpec{Argv: resolveArgv(op.Argv, root, op.ArgForm&32 != 0), Tape: op.Tape, MapTape: op.MapTape, MapOrder: op.MapOrder, Plan: op.Plan,
+			Base: clock, ZoneMin: w.ZoneMin, ZoneName: w.ZoneName, Root: root, Stdin: op.Stdin, Cpus: cpus, Env: env, Steps: op.Steps, LongRun: op.Kind == "pause" || op.follows()}
 		c := &stepCtx{sc: sc, hc: hc, out: out, i: i, op: op}
 		spec.OnEdit = func(e *EditFault, reads, writes int) {
 			applyEdit(hw, e, out)
@@ -271,6 +277,18 @@ func applyEdit(hw *histWorld, e *EditFault, out *Outcome) {
 	case "user_edit", "bitrot":
 		b, _ := base64.StdEncoding.DecodeString(e.NewB64)
 		_ = os.WriteFile(p, b, 0o644)
+	case "append_record":
+		// somebody else (another klog process, an editor) adds a record at the end of the file as it is now
+		b, err := os.ReadFile(p)
+		if err != nil {
+			return
+		}
+		t := string(b)
+		if t != "" && !strings.HasSuffix(t, "\n") {
+			t += "\n"
+		}
+		t += "\n1999-12-31\n    30m added by somebody else\n"
+		_ = os.WriteFile(p, []byte(t), 0o644)
 	case "remove":
 		_ = os.RemoveAll(p)
 	case "mkdir":
@@ -592,6 +610,8 @@ func (c *stepCtx) judgeMidEdit() {
 	}
 	if wroteAfter || A != E {
 		if r := checkC03("pause", E, A); !r.ok {
+			// the lines somebody else added are lines of the file that the later pause update must not touch
+			c.report("C03", "concurrent-edit-lost", "pause", fmt.Sprintf("the file was edited while pause ran; klog's next update did not keep the lines of that file (%s): edited=%q after=%q", r.detail, shortText(E, 300), shortText(A, 300)))
 			c.report("C05", "stale-content-written-back", "pause", fmt.Sprintf("the file was edited while pause ran; what klog wrote afterwards is not that file plus pause edits (%s): edited=%q after=%q", r.detail, shortText(E, 300), shortText(A, 300)))
 		}
 	}
@@ -726,21 +746,14 @@ type jsonEnvelope struct {
 	Errors []any `json:"errors"`
 }
 
-func (c *stepCtx) judgeReadOnly() {
-	op, res := c.op, c.res
-	if (op.Kind != "json" && op.Kind != "total" && op.Kind != "today") || !containsArg(op.Argv, "--now") || c.target == "" {
-		return
-	}
-	st, ok := parseState(c.before[c.target])
-	if !ok {
-		return
-	}
-	clk := mkClock(c.clock)
-	nowM := c.clock.Hour()*60 + c.clock.Minute()
+// nowExpectation: per-record totals of `--now` evaluated at the wall-clock instant `at`, or the reason why klog
+// must refuse.
+func nowExpectation(st MState, at time.Time) (expected []int, refuse string) {
+	clk := mkClock(at)
+	nowM := at.Hour()*60 + at.Minute()
 	today := dateKey(clk.ty, clk.tm, clk.td)
 	yesterday := dateKey(addDays(clk.ty, clk.tm, clk.td, -1))
-	refuse := ""
-	expected := make([]int, len(st))
+	expected = make([]int, len(st))
 	for i := range st {
 		total := 0
 		for _, e := range st[i].Entries {
@@ -769,6 +782,81 @@ func (c *stepCtx) judgeReadOnly() {
 		}
 		expected[i] = total
 	}
+	return expected, refuse
+}
+
+var todayAllRe = regexp.MustCompile(`(?m)^All\s+(-?\d+)\s*$`)
+
+// judgeFollow: `klog today --now --follow` re-evaluates once per second until it is interrupted. The last screen
+// must show the total as of (about) the instant of the interrupt, not as of the launch.
+func (c *stepCtx) judgeFollow(st MState) {
+	res := c.res
+	_, refuseStart := nowExpectation(st, c.clock)
+	end := res.EndClock.In(c.clock.Location())
+	_, refuseEnd := nowExpectation(st, end)
+	c.out.stat("follow_runs", 1)
+	if (refuseStart != "") != (refuseEnd != "") {
+		c.out.stat("follow_refusal_changed_during_run_not_judged", 1)
+		return
+	}
+	if refuseStart != "" {
+		if !res.Failed {
+			c.report("C17", "now-not-refused", "today-follow", "--now must be refused ("+refuseStart+") but `today --follow` kept running")
+		}
+		return
+	}
+	if res.Failed {
+		c.report("C17", "now-refused", "today-follow", "--now is applicable at every instant of the run but klog failed: "+shortText(res.ErrText+res.Stdout, 200))
+		return
+	}
+	screens := strings.Split(res.Stdout, "\x1b[H\x1b[J")
+	last := screens[len(screens)-1]
+	m := todayAllRe.FindStringSubmatch(last)
+	if m == nil {
+		c.out.stat("today_now_not_parsed", 1)
+		return
+	}
+	got, _ := strconv.Atoi(m[1])
+	var wants []int
+	for _, back := range []int{0, 1, 2} { // the last refresh happened at most one tick (1 s) before the interrupt
+		exp, refuse := nowExpectation(st, end.Add(-time.Duration(back)*time.Second))
+		if refuse != "" {
+			return
+		}
+		sum := 0
+		for _, e := range exp {
+			sum += e
+		}
+		if sum == got {
+			c.out.stat("follow_last_screen_checked", 1)
+			if end.Sub(c.clock) >= time.Minute {
+				c.out.stat("follow_minute_passed_during_run", 1)
+			}
+			if end.YearDay() != c.clock.YearDay() {
+				c.out.stat("follow_midnight_passed_during_run", 1)
+			}
+			return
+		}
+		wants = append(wants, sum)
+	}
+	c.report("C17", "now-total", "today-follow", fmt.Sprintf("the last screen of `today --now --follow` (launched %s, interrupted %s, %d screens) shows %d minutes in total, expected one of %v (file=%q)",
+		c.clock.Format("2006-01-02T15:04:05"), end.Format("2006-01-02T15:04:05"), len(screens)-1, got, wants, shortText(c.before[c.target], 300)))
+}
+
+func (c *stepCtx) judgeReadOnly() {
+	op, res := c.op, c.res
+	if (op.Kind != "json" && op.Kind != "total" && op.Kind != "today") || !(containsArg(op.Argv, "--now") || containsArg(op.Argv, "-n")) || c.target == "" {
+		return
+	}
+	st, ok := parseState(c.before[c.target])
+	if !ok {
+		return
+	}
+	if op.follows() {
+		c.judgeFollow(st)
+		return
+	}
+	expected, refuse := nowExpectation(st, c.clock)
 	c.out.stat("now_evaluations", 1)
 	if refuse != "" {
 		c.out.stat("now_refusals_expected", 1)
@@ -783,7 +871,7 @@ func (c *stepCtx) judgeReadOnly() {
 	}
 	if op.Kind == "today" {
 		// `today --now --decimal --no-style`: the line "All <minutes>" is the grand total; any other shape is not judged
-		m := regexp.MustCompile(`(?m)^All\s+(-?\d+)\s*$`).FindStringSubmatch(res.Stdout)
+		m := todayAllRe.FindStringSubmatch(res.Stdout)
 		if m == nil || !containsArg(op.Argv, "--decimal") {
 			c.out.stat("today_now_not_parsed", 1)
 			return
